@@ -26,9 +26,9 @@ CLAIMED = {
  'C07': ('proof', 'deductive VCs from the real AST (pyvc): stutter lemmas and hydrogen-absorption lemma on the record loop, element-inference VC on a symbolic atom-name field, idempotence of protonate_atom, option plumbing; syntactic column frame of Atom.set_properties and sink-only frame of serial/occupancy/B-factor',
          'records the model ignores leave the reader state unchanged and yield nothing (all loop states, all column contents); hydrogen records are absorbed; set_properties reads only the documented columns; stored-but-unused fields reach sinks only.',
          'stutter rule + composition step; the own-hydrogens round trip and --protonate-all rest on idempotence + bounded monitor'),
- 'C08': ('proof', 'deductive VCs from the real AST (pyvc): average_of_conformations with the real clone/+=/divide/find_group inlined, for every presence pattern of two groups over 2 and 3 conformations (values symbolic) and for label twins; top_up_from_atoms by exhaustive ground evaluation over a stated atom universe against an independent specification; sort key VC',
+ 'C08': ('other', 'deductive VCs from the real AST (pyvc): average_of_conformations with the real clone/+=/divide/find_group inlined, for every presence pattern of two groups over 2 and 3 conformations (values symbolic) and for label twins; top_up_from_atoms by exhaustive ground evaluation over a stated atom universe against an independent specification; sort key VC',
          'average = arithmetic mean over the containing conformations, one entry per existing group: proved per presence pattern for all real values; top-up: no residue-type merging, exhaustive over the universe.',
-         'patterns bounded to 2 groups x <= 3 conformations and a 7-atom universe (stated in evidence); residue identity = atom label as in the code (insertion codes: known finding D9)'),
+         'patterns bounded to 2 groups x <= 3 conformations and a 7-atom universe (stated in evidence); residue identity = atom label as in the code (insertion codes: known finding D9). Level "other": under -d the averaged table of a single-conformation input is not the conformation\'s table (known finding D17, reported by the monitor on every run)'),
  'C09': ('proof', 'deductive VCs from the real AST (pyvc) discharged by z3: closed form/bounds/monotonicity of calculate_charge, fold rule for the container sums, inductive contract of the nested bisection, rendering contract',
          'Every obligation is a VC generated from the working tree and discharged by z3; a bounded monitor on real runs stands in for the composition step only.',
          'A-REAL, A-EXP (10**x as positive strictly monotone function), IVT for "bracket => root", termination of the bisection not proved'),
